@@ -169,6 +169,14 @@ class Repo(object):
                     self._add_class(mi, st)
                 elif isinstance(st, ast.Assign) and len(st.targets) == 1 and isinstance(st.targets[0], ast.Name):
                     mi.assigns[st.targets[0].id] = st.value
+                    v = st.value
+                    if isinstance(v, ast.Call) and getattr(v.func, "id", None) == "namedtuple" and len(v.args) == 2 \
+                            and isinstance(v.args[0], ast.Constant) and isinstance(v.args[1], (ast.List, ast.Tuple)) \
+                            and all(isinstance(e, ast.Constant) for e in v.args[1].elts):
+                        ci = ClassInfo(v.args[0].value, mi, None, ["tuple"], self._tag())
+                        ci.builtin = False
+                        ci.namedtuple_fields = [e.value for e in v.args[1].elts]
+                        self.classes[ci.name] = ci
                 elif isinstance(st, ast.Try):
                     # DESIGN 2.2 item 3: `try: import X / except ImportError:` resolved the
                     # way CPython 3.12 resolves it: the try body succeeds.
